@@ -1,7 +1,8 @@
 ------------------------- MODULE FormatBuilderTrace -------------------------
 (* Recorded operation sequences on the real ArgsFormatBuilder / ArgsFormat checked against FormatBuilder.
-   event: [op, el, res ("ok"|"reject"), cls, tb, tf]   tb/tf = [ans, lst] query tables of the builder and of
-   builder.format after the operation.
+   event: [op, el, res ("ok"|"reject"), cls, tb, tf, snapThen, snapNow]   tb/tf = [ans, lst] query tables of the builder and of
+   builder.format after the operation; snapThen/snapNow = table of the format object obtained before this
+   operation, as it answered then and as it answers now.
    The model follows the *observed* decision (an accepted addition is applied even if the model would have
    rejected it), then the P-clauses are evaluated: the elements now listed must form a consistent format and
    every answer must be the one the listed elements imply.                                                *)
@@ -31,6 +32,8 @@ After(decision) ==
   /\ Check(tid, l, "P.answers.builder", Ev.op, Ev.tb.ans = Answers(Append(levels', b')))
   /\ Check(tid, l, "P.answers.format", Ev.op, Ev.tf.ans = Ev.tb.ans)
   /\ Check(tid, l, "P.listing.format_eq_builder", Ev.op, Ev.tf.lst = Ev.tb.lst)
+  \* a format obtained earlier is finished: later builder operations must not change what it answers
+  /\ Check(tid, l, "P.snapshot.stable", Ev.op, Ev.snapNow = Ev.snapThen)
   /\ Check(tid, l, "P.listing.positions", Ev.op, PositionsAgree(Ev.tb) /\ PositionsAgree(Ev.tf))
   /\ Note(tid, l, "A.decision", Ok = decision)
   /\ Note(tid, l, "A.listings", Ev.tb.lst = Listings(Append(levels', b')))
